@@ -55,6 +55,7 @@ MFolderRestore(dn, rs) ==
 \* --- node ---------------------------------------------------------------------
 MOsScan(dn, rs) ==
     OsScanReq(on, on /\ dn, rs, Files, IF on /\ dn THEN fH ELSE fV, IF on /\ dn THEN Worst(fH) ELSE foV)
+MOther    == ~inTick /\ Other
 MPowerOff == on /\ ~inTick /\ PowerOff
 MPowerOn  == ~on /\ ~inTick /\ PowerOn(IF swA = "UNUSED" /\ UseSw THEN "GOOD" ELSE swA)
 \* --- tick ------------------------------------------------------------------------
@@ -66,6 +67,10 @@ MInstallDone == UseSw /\ InstallDone
 MRestoreDone == UseFs /\ RestoreDone(Files, RestoredAll)
 MTickEnd     == TickEnd
 
+MFolderScanAny    == \E dn \in Instant(scanDur), rs \in Rs : MFolderScan(dn, rs)
+MFolderRestoreAny == \E dn \in Instant(restDur), rs \in Rs : MFolderRestore(dn, rs)
+MOsScanAny        == \E dn \in Instant(nodeDur), rs \in Rs : MOsScan(dn, rs)
+
 TickStep ==
     \/ MTickBegin \/ MOsScanDone \/ MFoScanDone \/ (\E r \in BOOLEAN : MFixDone(r))
     \/ MInstallDone \/ MRestoreDone \/ MTickEnd
@@ -75,10 +80,8 @@ Next ==
     \/ \E a2 \in SwHealth : MSwConnect(a2)
     \/ \E i \in Files : MFileScan(i) \/ MFileCorrupt(i) \/ MFileRepair(i) \/ MFileRestore(i)
     \/ MSqlDelete \/ MSqlEncrypt \/ MFolderCorrupt \/ MFolderRepair
-    \/ \E dn, rs \in BOOLEAN : dn \in Instant(scanDur) /\ rs \in Rs /\ MFolderScan(dn, rs)
-    \/ \E dn, rs \in BOOLEAN : dn \in Instant(restDur) /\ rs \in Rs /\ MFolderRestore(dn, rs)
-    \/ \E dn, rs \in BOOLEAN : dn \in Instant(nodeDur) /\ rs \in Rs /\ MOsScan(dn, rs)
-    \/ MPowerOff \/ MPowerOn
+    \/ MFolderScanAny \/ MFolderRestoreAny \/ MOsScanAny
+    \/ MPowerOff \/ MPowerOn \/ MOther
     \/ TickStep
 
 SafetySpec == Init /\ [][Next]_hvars
